@@ -40,6 +40,7 @@ PLANS = [
     ("lig", ["lig", "order"], [1, 2, 4], 4, 6),
     ("lig6", ["lig"], [1, 2, 4, 6], 3, 5),
     ("ctx", ["ctx"], [1, 2, 4], 3, 5),
+    ("ctxnest", ["ctxnest"], [1, 2], 6, 8),
     ("chain", ["chain"], [1, 2, 4], 4, 5),
     ("gpos", ["gpos"], [1, 2, 3, 4, 5], 3, 4),
 ]
@@ -183,9 +184,55 @@ def random_v(ctx, binp, n, maxlen, report, chunk=400):
     return tot
 
 
+def repo_tests(ctx, binp, report):
+    """Happy path: the repository's own GSUB test cases (built with the lookup DSL) are lifted into abstract
+    cases; the specification must reproduce the documented outcome of every test of sections 1-3 (a
+    disagreement there is an error of the specification, not a finding), and the real engine is judged
+    by TLC on all of them."""
+    d = ctx.subdir("repo")
+    lp = os.path.join(d, "lifted.json")
+    ctx.run([binp, "lift-tests", lp])
+    lifted = [x for x in json.load(open(lp)) if x.get("case")]
+    cases = [x["case"] for x in lifted]
+    cp = os.path.join(d, "cases.json")
+    json.dump(cases, open(cp, "w"))
+    rp = os.path.join(d, "rec.ndjson")
+    ctx.run([binp, "record", cp, rp])
+    recs = {r["cid"]: r for r in vlib.read_ndjson(rp)}
+    for c in cases:
+        c["expect"] = recs[c["id"]].get("got") or []
+    mod, cfg = sc.render_module("ShaperMC", cases, [1], 0)
+    res = ctx.tlc("ShaperMC", cfg="ShaperMC.cfg", workers=4, timeout=900,
+                  files={"ShaperMC.tla": mod, "ShaperMC.cfg": _cfg(cfg, INVS, "EmitV")},
+                  label="Shaper on the repository's %d GSUB test cases" % len(cases))
+    if res.violated or len(res.cases) != len(cases):
+        raise vlib.Infra("Shaper.tla failed on the repository's test cases: %s" % (res.violated or "missing results"))
+    byid = {x["case"]["id"]: x for x in lifted}
+    ndef = 0
+    for v in res.cases:
+        x = byid[v["cid"]]
+        spec = [g["g"] for g in v["out"]]
+        sec = x["name"].split("_")[0]
+        if sec in ("1", "2", "3") and not v["defined"]:
+            raise vlib.Infra("test %s of section %s is outside the spec's defined region" % (x["name"], sec))
+        if v["defined"]:
+            ndef += 1
+            if spec != x["want"]:
+                raise vlib.Infra("Shaper.tla contradicts the repository's documented outcome of test %s: spec %s, "
+                                 "documented %s" % (x["name"], spec, x["want"]))
+            if not v["agree"]:
+                c = x["case"]
+                report("mismatch", {"kind": "mismatch", "cid": c["id"], "input": c["inputs"][0], "defined": True,
+                                    "want": v["out"], "got": c["expect"]}, c)
+    ctx.cov["traces_validated_against_impl"] += len(cases)
+    ctx.cov["repo_tests"] = {"lifted": len(cases), "inside_defined_region": ndef}
+    return {"n": len(cases), "defined": ndef}
+
+
 def run(ctx):
     binp = ctx.build("c06")
     report = make_reporter(ctx, binp, "C06", ("mismatch", "panic", "hang", "textloss"))
+    rt0 = repo_tests(ctx, binp, report)
     plans = []
     for name, fams, alpha, ql, tl in PLANS:
         cases = sc.build(fams, deep=not ctx.quick())
@@ -200,8 +247,8 @@ def run(ctx):
             tot["n"] += s["n"]
             tot["defined"] += s["defined"]
     rt = random_v(ctx, binp, ctx.pick(400, 6000), ctx.pick(10, 16), report)
-    ctx.cov["evaluations"] = tot["n"] + rt["n"]
-    ctx.cov["distinct_nontrivial"] = tot["defined"] + rt["defined"]
+    ctx.cov["evaluations"] = tot["n"] + rt["n"] + rt0["n"]
+    ctx.cov["distinct_nontrivial"] = tot["defined"] + rt["defined"] + rt0["defined"]
     ctx.cov["outside_region"] = tot["n"] - tot["defined"] + rt["n"] - rt["defined"]
     ctx.cov["traces_validated_against_impl"] += tot["n"]
     ctx.cov["rule"] = ("one case = (lookup list, GDEF, order, input string); exhaustive over catalogue x all strings up to "
